@@ -24,7 +24,7 @@ ASSUMPTIONS = [
     'say whose block counts); what is judged is that every flag is restored once all blocks have exited',
     're-assigning the identical object may raise or not; only "the held object did not change" is required',
 ]
-REQUIRED = {'linked_constant_failed_deliveries': 20, 'forbidden_attempts': 3000, 'blocks': 500, 'blocks_raised': 100, 'flag_probes': 2000, 'ctor_constant_reference': 50,
+REQUIRED = {'pending_references_offered_to_constants': 20, 'linked_constant_failed_deliveries': 20, 'forbidden_attempts': 3000, 'blocks': 500, 'blocks_raised': 100, 'flag_probes': 2000, 'ctor_constant_reference': 50,
             'ctor_constant_pending_reference': 50, 'library_attempts': 100, 'async_attempts': 100, 'observer_calls': 100, 'class_blocks': 50}
 
 _st = {}
@@ -170,6 +170,28 @@ def async_case(idx, rng, P, rep):
             for _ in range(5):
                 await asyncio.sleep(0)
             await attempts(f'after result {gi} of the {kind} reference was delivered')
+        # an asynchronous function offered to the constant that accepts references, outside any block
+        for _ in range(5):
+            await asyncio.sleep(0)
+        held_cr = o.cr
+        offered = Tok()
+
+        async def offered_ref():
+            return offered
+        rep.count('forbidden_attempts')
+        rep.count('async_references_offered_to_constants')
+        try:
+            if rng.random() < 0.5:
+                o.cr = offered_ref
+            else:
+                o.param.update(cr=offered_ref)
+            problems.append(('rebind-allowed-outside-block/async-reference-offered', 'an asynchronous function was accepted as the new reference of a constant'))
+        except TypeError:
+            pass
+        for _ in range(5):
+            await asyncio.sleep(0)
+        if o.cr is not held_cr:
+            problems.append(('held-object-changed/refused-reference-still-linked', 'the constant changed after an asynchronous function was offered to it'))
         return o
 
     loop.run_until_complete(scenario())
@@ -400,12 +422,24 @@ def run_case(idx, rng, P, rep):
         o = insts[i]
         v = new_value(p)
         offered_src = None
+        offered_pending = []
         if p == 'cr' and not open_blocks and rng.random() < 0.4:
             # what is offered is a reference (to a parameter of another object): refused all the same, and the source
             # has no hold on the constant afterwards
             offered_src = Src(v=v)
             sources.append(offered_src)
-            v = offered_src.param.v
+            if rng.random() < 0.5:
+                v = offered_src.param.v
+            else:
+                # a reference that has no value at the moment: there is nothing to install now, but accepting it
+                # would let the source rebind the constant later
+                def later(value, ready):
+                    if not ready:
+                        raise param.Skip
+                    return value
+                v = param.bind(later, offered_src.param.v, offered_src.param.ready)
+                offered_pending.append(True)
+                rep.count('pending_references_offered_to_constants')
             rep.count('references_offered_to_constants')
         try:
             if how == 'set':
@@ -448,8 +482,10 @@ def run_case(idx, rng, P, rep):
             if getattr(o, p) is not held[i][p] and outcome != 'ok':
                 viol('held-object-changed', f'after refused {how}: inst{i}.{p} changed')
                 held[i][p] = getattr(o, p)
-            if offered_src is not None and outcome != 'ok':
+            if offered_src is not None and (outcome != 'ok' or offered_pending):
                 offered_src.v = new_value(p)
+                if offered_pending:
+                    offered_src.ready = True
                 if getattr(o, p) is not held[i][p]:
                     viol('held-object-changed/refused-reference-still-linked', f'after the refused {how} of a reference, an update of its source '
                          f'changed inst{i}.{p}')
